@@ -1,4 +1,5 @@
 import MetadorModel.Proofs.HashsumsTree
+import MetadorModel.Proofs.ByteStreams
 /-!
 # C19 — Directory hashsums identify directory content
 
@@ -233,6 +234,33 @@ theorem hashsum_is_standard_digest {σ : Type} (hl : HashLib σ) (hs : Streaming
     qualifiedHashsum hl bs alg = .ok (alg ++ ':' :: oneShot hl alg bs) :=
   ⟨hashsum_eq_oneShot hl hs alg halg bs, qualifiedHashsum_eq hl hs alg halg bs⟩
 
+/-- "independent of … read chunking" for streams that hand out FEWER bytes than asked for
+before their end (raw streams, unbuffered pipes, sockets, wrappers with a small transfer size;
+`Model/ByteStreams.lean`): whatever the delivery schedule `cap` — the `i`-th `read(n)` returns the
+next `min n (cap i)` bytes, at least one while bytes are left — `hashsum` returns the standard
+digest of ALL bytes of the stream and `qualified_hashsum` prefixes it with the algorithm name; in
+particular two schedules give the same result. -/
+theorem short_reads_independent {σ : Type} (hl : HashLib σ) (hs : Streaming hl)
+    (cap cap' : Nat → Nat) (hcap : ∀ i, 0 < cap i) (hcap' : ∀ i, 0 < cap' i) (alg : Str)
+    (halg : alg ∈ hashAlgs) (bs : Bytes) :
+    hashsumS hl cap bs alg = .ok (oneShot hl alg bs) ∧
+    qualifiedHashsumS hl cap bs alg = .ok (alg ++ ':' :: oneShot hl alg bs) ∧
+    hashsumS hl cap bs alg = hashsumS hl cap' bs alg ∧
+    hashsumS hl cap bs alg = hashsum hl bs alg :=
+  ⟨hashsumS_eq_oneShot hl hs cap hcap alg halg bs, qualifiedHashsumS_eq hl hs cap hcap alg halg bs,
+   by rw [hashsumS_eq_oneShot hl hs cap hcap alg halg, hashsumS_eq_oneShot hl hs cap' hcap' alg halg],
+   by rw [hashsumS_eq_oneShot hl hs cap hcap alg halg, hashsum_eq_oneShot hl hs alg halg]⟩
+
+/-- a loop that takes a short read for the end of the stream (`if len(chunk) < n: break`) is NOT
+independent of the delivery: on a stream that hands out one byte per read it hashes one byte -/
+def stopAtShortRead {σ : Type} (hl : HashLib σ) (cap : Nat → Nat) : Nat → Nat → Bytes → σ → σ
+  | 0, _, _, h => h
+  | fuel + 1, i, data, h =>
+    let chunk := data.take (min (hl.blockSize h) (cap i))
+    let h' := hl.update h chunk
+    if chunk.length < hl.blockSize h then h'
+    else stopAtShortRead hl cap fuel (i + 1) (data.drop (min (hl.blockSize h) (cap i))) h'
+
 /-! ## Concrete directories: examples and the pinned code -/
 
 /-- a hash library that satisfies `Streaming` and never collides (the digest spells out the
@@ -353,5 +381,18 @@ example : dirHashsums demoLib "md5".toList tSym = .error .valueError :=
 
 example : hashsum demoLib [1, 2, 3, 4, 5] sha256 = .ok (oneShot demoLib sha256 [1, 2, 3, 4, 5]) :=
   (hashsum_is_standard_digest demoLib demoLib_streaming sha256 (by decide) _).1
+
+/-- a stream that delivers 1, 3, 1, 3, … bytes per read (block size 2: the reads return 1, 2, 1, 1) -/
+example : hashsumS demoLib (cyclic [1, 3] 9) [1, 2, 3, 4, 5] sha256
+    = .ok (oneShot demoLib sha256 [1, 2, 3, 4, 5]) :=
+  (short_reads_independent demoLib demoLib_streaming (cyclic [1, 3] 9) (cyclic [] 9)
+    (cyclic_pos _ _ (by decide) (by decide)) (cyclic_pos _ _ (by decide) (by decide))
+    sha256 (by decide) _).1
+
+/-- the hypotheses of `short_reads_independent` are needed for the loop AS WRITTEN only: the
+variant that stops at the first short read hashes `[1]` instead of `[1, 2, 3, 4, 5]` -/
+example : stopAtShortRead demoLib (cyclic [1] 9) 6 0 [1, 2, 3, 4, 5] (demoLib.new sha256) = [1]
+    ∧ readLoopS demoLib (cyclic [1] 9) 6 0 [1, 2, 3, 4, 5] (demoLib.new sha256) = [1, 2, 3, 4, 5] := by
+  decide
 
 end MetadorModel.C19
